@@ -89,6 +89,9 @@ fn graph_info(graph: &Graph, hashes: Option<&Hashes>) -> Vec<BuildInfo> {
 pub struct CommandResult {
     pub termination: Termination,
     pub output: Vec<u8>,
+    /// Deliver the output to n2 in pieces of this many bytes, as successive
+    /// reads from a pipe would (0: all at once).
+    pub chunk: usize,
 }
 
 #[derive(Debug, Clone)]
